@@ -144,14 +144,25 @@ pub struct ReqRec {
     /// connections that were idle-available at issue time (R1)
     pub avail_at_issue: Vec<usize>,
     pub must_use_idle: bool,
-    /// (conn, step) a freed connection this waiting request must take at its next poll (C14)
-    pub expect_conn: Option<(usize, u64)>,
     /// the request was a pure waiter on this owner's in-flight attempt at issue time
     pub waits_on: Option<usize>,
     pub is_owner: bool,
     pub timeout_ms: Option<u64>,
     pub issued_vtime_ms: u64,
     pub finished_vtime_ms: Option<u64>,
+    /// virtual time at which the peer's response became available to the inner future
+    pub respond_vtime_ms: Option<u64>,
+}
+
+/// a connection pushed into the pool while requests were waiting for one (C14)
+#[derive(Debug, Clone)]
+pub struct Offer {
+    pub conn: usize,
+    pub step: u64,
+    pub waiters: Vec<usize>,
+    pub polled: Vec<usize>,
+    /// HTTP/2: every listed waiter gets its own clone and must take it at its next poll
+    pub strict_each: bool,
 }
 
 #[derive(Debug, Clone)]
@@ -200,6 +211,7 @@ pub struct World {
     pub vtime_origin: Option<tokio::time::Instant>,
     /// injected scheduling noise for the real-thread engine (0 = none)
     pub jitter: u32,
+    pub offers: Vec<Offer>,
 }
 
 pub type Shared = Arc<Mutex<World>>;
@@ -233,6 +245,7 @@ impl World {
             h2_owner: Default::default(),
             vtime_origin: None,
             jitter: 0,
+            offers: vec![],
         }
     }
 
